@@ -272,3 +272,25 @@ def range_list_ok(w1: bool, w2: bool, a: str, b: str, c: str, t0: str, t1: str, 
     m = cm.CSSMatch(ct.SelectorList(), soup, None, 0)
     got = m.match_lang(p, ([r1, r2],))
     return ret(bool(got) == (ref_filter(r1, tag) or ref_filter(r2, tag)))
+
+
+# Bounded enumeration companion of filter_ok (which is a time-boxed search over symbolic subtag contents): every range of
+# 1..3 and every tag of 1..4 subtags over a small alphabet that contains singletons, the wildcard and both cases.
+ENUM_SUB = ['de', 'u', 'co', 'x', 'DE', 'a1']
+ENUM_RANGES = part([_join(p) for n in (1, 2, 3) for p in itertools.product(ENUM_SUB + ['*'], repeat=n)] + [''])
+ENUM_TAGS = [_join(p) for n in (1, 2, 3, 4) for p in itertools.product(ENUM_SUB[:5], repeat=n)] + ['']
+ENUM_BLOCK = 8
+
+
+def filter_enum_ok(bi: int) -> bool:
+    """
+    pre: 0 <= bi * ENUM_BLOCK < len(ENUM_RANGES)
+    post: _
+    """
+    bi = concrete(bi)
+    with notrace():
+        for rng in ENUM_RANGES[bi * ENUM_BLOCK:(bi + 1) * ENUM_BLOCK]:
+            for tag in ENUM_TAGS:
+                if bool(MATCHER.extended_language_filter(rng, tag)) != ref_filter(rng, tag):
+                    return ret(False)
+    return ret(True)
